@@ -21,7 +21,7 @@ ALL = [f"C{i:02d}" for i in range(1, 20)]
 
 
 def run_check(worktree: str, pid: str, tier: str) -> tuple[int, list[str]]:
-    env = dict(os.environ, VERIF_REPO=worktree)
+    env = dict(os.environ, VERIF_REPO=worktree, VERIF_OUT_DIR=f"/tmp/vf-out-{os.getpid()}")
     proc = subprocess.run(["./check", pid, "--tier", tier], cwd=ROOT, env=env, capture_output=True, text=True, timeout=3600)
     keys = re.findall(r"violation key=(\S+)", proc.stdout)
     if "INCONCLUSIVE" in proc.stdout:
